@@ -116,7 +116,7 @@ func (p *Parser) Parse() (al align.Alignment, err error) {
 		}
 
 		if tok == MARKUP {
-			for tok != ENDOFLINE {
+			for tok != ENDOFLINE && tok != EOF {
 				tok, _ = p.scanIgnoreWhitespace()
 			}
 			continue
